@@ -588,3 +588,41 @@ func Soup(t *rapid.T, label string) string {
 	}
 	return sb.String()
 }
+
+// StyledDoc draws a document with unique ascending dates in which (most) records follow one
+// notation style each: date separator, clock convention, dash spacing, placeholder length.
+func StyledDoc(t *rapid.T, o Opts) model.Doc {
+	o.SortedDates = 2
+	d := Doc(t, o)
+	for ri := range d.Records {
+		r := &d.Records[ri]
+		if rapid.IntRange(0, 5).Draw(t, "keepMixedStyle") == 0 {
+			continue
+		}
+		is12 := rapid.Bool().Draw(t, "rec12h")
+		dl, dr := dash(t, "recDash")
+		q := rapid.SampledFrom([]int{1, 1, 2, 4}).Draw(t, "recQ")
+		respell := func(tm model.Time) model.Time {
+			if (tm.Off == 1440 && tm.Lit == "24:00") || (tm.Off == 0 && tm.Lit == "<24:00") {
+				if !is12 {
+					return tm
+				}
+			}
+			return model.Time{Off: tm.Off, Is12h: is12, Lit: model.CanonTime(tm.Off, is12)}
+		}
+		for ei := range r.Entries {
+			e := &r.Entries[ei]
+			if e.Kind == model.KDuration {
+				continue
+			}
+			e.Start = respell(e.Start)
+			if e.Kind == model.KRange {
+				e.End = respell(e.End)
+			} else {
+				e.QMarks = q
+			}
+			e.DashL, e.DashR = dl, dr
+		}
+	}
+	return d
+}
